@@ -5,6 +5,7 @@ import PV.Model.Labels
 import PV.Model.AllocCheck
 import PV.Model.Regions
 import PV.Model.Flatten
+import PV.Model.Strip
 /-! Driver commands that execute programs: `run-ic10`, `run-src`, `equiv`. -/
 namespace PV.DriverRun
 open Lean PV.IC10 PV.IC10.Parse
@@ -358,7 +359,8 @@ def labelsCompare (j : Json) : Except String Json := do
   let numeric ← j.getObjValAs? String "numeric"
   let p := linesOfText labelled
   let spec := PV.Labels.specRemove p
-  let real := (splitLines numeric).map tokenize
+  -- the empty text is the empty program (no line), not one blank line
+  let real := if numeric.isEmpty then [] else (splitLines numeric).map tokenize
   let defs := p.filterMap (fun l => match l with | .label n => some n | _ => none)
   let dups := (defs.filter (fun n => PV.Labels.defCount n p > 1)).eraseDups
   let jl (ls : List (List String)) := Json.arr (ls.map (fun t => Json.str (" ".intercalate t))).toArray
@@ -572,5 +574,30 @@ def coreCompare (j : Json) : Except String Json := do
         | some ((x, y), i) => pure (Json.mkObj [("verdict", Json.str "differ"), ("line", Json.num (JsonNumber.fromNat i)), ("model", Json.str x), ("real", Json.str y),
             ("model_code", Json.arr (a.map Json.str).toArray), ("real_code", Json.arr (b.map Json.str).toArray)])
         | none => pure (Json.mkObj [("verdict", Json.str "same"), ("lines", Json.num (JsonNumber.fromNat a.length)), ("flatten", Json.str flat)])
+
+/-! ### C05: label removal at machine level -/
+
+/-- is the REAL output without labels the machine-level `strip` of the REAL output with labels, and is the program inside the
+    fragment `strip_sim_fwd` / `strip_sim_bwd` cover (every kept line `simple`)? -/
+def stripCompare (j : Json) : Except String Json := do
+  let labelled ← j.getObjValAs? String "labelled"
+  let stripped ← j.getObjValAs? String "stripped"
+  match parseProgram labelled, parseProgram stripped with
+  | .error e, _ => pure (Json.mkObj [("verdict", Json.str "parse-error"), ("detail", Json.str ("labelled: " ++ e))])
+  | _, .error e => pure (Json.mkObj [("verdict", Json.str "parse-error"), ("detail", Json.str ("stripped: " ++ e))])
+  | .ok p, .ok q =>
+    let lab : Nat → Bool := fun i => p.isLabel.getD i false
+    let s := PV.Strip.strip FloatSem.sem (fun n => Float.ofNat n) lab p.prog
+    let notSimple := (p.prog.zipIdx.filter (fun (i, k) => !lab k && !PV.Strip.simple FloatSem.sem i)).map (·.2)
+    let covered := notSimple.isEmpty
+    let extra := [("covered", Json.bool covered), ("not_simple", Json.arr ((notSimple.take 8).map (fun n => Json.num (JsonNumber.fromNat n))).toArray),
+      ("labels", Json.num (JsonNumber.fromNat (p.isLabel.filter id).length)), ("lines", Json.num (JsonNumber.fromNat p.prog.length))]
+    let qprog := if stripped.isEmpty then [] else q.prog
+    if s.length != qprog.length then
+      pure (Json.mkObj ([("verdict", Json.str "length"), ("model", Json.num (JsonNumber.fromNat s.length)), ("real", Json.num (JsonNumber.fromNat qprog.length))] ++ extra))
+    else
+      match (s.zip qprog).zipIdx.find? (fun ((a, b), _) => !instrEq a b) with
+      | some (_, i) => pure (Json.mkObj ([("verdict", Json.str "differ"), ("line", Json.num (JsonNumber.fromNat i))] ++ extra))
+      | none => pure (Json.mkObj ([("verdict", Json.str "same")] ++ extra))
 
 end PV.DriverRun
